@@ -268,13 +268,43 @@ func callInitRule(c *Ctx, a *flAgg) {
 		if cell("RemoteSrcPath") != src {
 			okAll, why = false, "RemoteSrcPath is not the given path"
 		}
-		noSlash, have := p.lit("(" + slash + " == -1)")
+		// "found" tests of a search result: x == -1, x < 0, -1 < x - comparing
+		// with another bound (0 < x) misses a '/' at position 0
+		found := func(x string) (bool, bool, string) {
+			for _, lt := range p.Lits {
+				at := lt.Atom
+				if at.Op != OpBin || len(at.Args) != 2 {
+					continue
+				}
+				l, r := at.Args[0].String(), at.Args[1].String()
+				switch {
+				case l == x && r == "-1" && at.Tok == token.EQL:
+					return !lt.Pol, true, ""
+				case l == x && r == "0" && at.Tok == token.LSS:
+					return !lt.Pol, true, ""
+				case l == "-1" && r == x && at.Tok == token.LSS:
+					return lt.Pol, true, ""
+				case l == x || r == x:
+					return false, false, at.String()
+				}
+			}
+			return false, false, ""
+		}
+		fs, have, odd := found(slash)
+		if odd != "" {
+			okAll, why = false, "the position of the last '/' is tested with "+odd+" instead of against -1: a file directly in the root directory gets no name"
+		}
+		noSlash := !fs
 		if have && !noSlash {
 			if cell("SrcName") != src+"[("+slash+" + 1):]" {
 				okAll, why = false, "SrcName is not what follows the last '/': "+cell("SrcName")
 			}
 			prev := "strings.LastIndexByte(" + src + "[:" + slash + "], 47)"
-			noPrev, have2 := p.lit("(" + prev + " == -1)")
+			fp, have2, odd2 := found(prev)
+			if odd2 != "" {
+				okAll, why = false, "the position of the second-last '/' is tested with "+odd2+" instead of against -1"
+			}
+			noPrev := !fp
 			if have2 && !noPrev && cell("DirSrc") != src+"[("+prev+" + 1):]" {
 				okAll, why = false, "DirSrc is not the last directory plus the file name: "+cell("DirSrc")
 			}
